@@ -285,6 +285,8 @@ def ord_(c):
   if isinstance(c, SymStr):
     if c.sb is None or len(c.sb) != 1: raise Inconclusive("ord of symbolic text")
     return c.sb.b[0]
+  if isinstance(c, (SymInt, SymBool)):
+    raise TypeError("ord() expected string of length 1, but int found")      # exactly what ord(<int>) does
   return ord(c)
 
 
